@@ -21,6 +21,8 @@ struct Trace {
         if (keep_ev) ev.push_back(e);
         if (verbose || keep_ev) log.push_back(s);
     }
+    // shown in replays, not part of the digest (things that are not results of the library: allocation counts, ...)
+    void note(const std::string &s) { if (verbose || keep_ev) log.push_back("    (" + s + ")"); }
 };
 
 // ---------------------------------------------------------------- failure sink
